@@ -787,7 +787,11 @@ func evalGen(g *Gen) {
 		g.Emit("%s", strings.ReplaceAll(t, " ", "~"))
 		g.Count("fixed")
 	}
-	nWT, nMal := 1500, 700
+	for _, t := range evalKnown {
+		g.Emit("%s", t)
+		g.Count("fixed known-finding")
+	}
+	nWT, nMal := 1300, 600
 	if g.Thorough() {
 		nWT, nMal = 60000, 25000
 	}
@@ -885,4 +889,14 @@ var evalFixed = []string{
 	"(def x 1) (def x \"s\")",
 	"(apply + [1 2 3])",
 	"(map (fn [a] (* a a)) (list 1 2 3))",
+}
+
+// Inputs on which the pinned tree is known to break C02 and that are not repaired by a
+// proposed fix (notes/C02.known.json). `+argbrk`: judged in the non-strict domain.
+var evalKnown = []string{
+	"+argbrk (def~a~0)~(for~[(def~i~0)~(<~i~3)~(set~i~(+~i~1))]~(set~a~(+~a~(cond~(>~i~0)~(break)~1))))~a",
+	"(+~1~(cond~true~(begin)~2))",
+	"(def~a~(newScope))~a",
+	"(defn~f~[f]~(f~1))~(f~(fn~[a]~a))",
+	"(defn~g~[a]~(cond~(>~a~0)~(g~0~7)~a))~(g~1)",
 }
